@@ -316,14 +316,186 @@ def make_step_failure(ws, we):
 
 
 for _sub in (1, 3, 7):
-    obligation(["C15", "C09", "C11"], "Service1Tm/success-report/sub" + str(_sub), verifies=S1_FUNCS)(make_success(_sub))
+    obligation(["C15", "C09", "C11"], "Service1Tm/success-report/sub" + str(_sub), verifies=S1_FUNCS, branch_probe_ms=250)(make_success(_sub))
 for _ws in (1, 2, 4, 8):
-    obligation(["C15", "C09", "C11"], "Service1Tm/step-success-report/step" + str(_ws), verifies=S1_FUNCS)(make_step_success(_ws))
+    obligation(["C15", "C09", "C11"], "Service1Tm/step-success-report/step" + str(_ws), verifies=S1_FUNCS, branch_probe_ms=250)(make_step_success(_ws))
 for _sub in (2, 4, 8):
     for _we in (1, 2, 4, 8):
         obligation(["C15", "C09", "C11"], "Service1Tm/failure-report/sub" + str(_sub) + "/code" + str(_we),
-                   verifies=S1_FUNCS)(make_failure(_sub, _we))
+                   verifies=S1_FUNCS, branch_probe_ms=250)(make_failure(_sub, _we))
 for _ws in (1, 2, 4, 8):
     for _we in (1, 2, 4, 8):
         obligation(["C15", "C09", "C11"], "Service1Tm/step-failure-report/step" + str(_ws) + "/code" + str(_we),
-                   verifies=S1_FUNCS)(make_step_failure(_ws, _we))
+                   verifies=S1_FUNCS, branch_probe_ms=250)(make_step_failure(_ws, _we))
+
+
+@obligation(["C15"], "Service1Tm.__init__/refusal", verifies=[M1 + "Service1Tm.__init__", M1 + "VerificationParams.verify_against_subservice"])
+def s1_init_refusal(sub: EnumOf(Subservice), has_step: Bool, has_notice: Bool, ts: BytesLen(0, 16)):
+    """parameter sets that do not match the subservice are refused (both directions, 8 subservices x step / notice)"""
+    requires(sub != Subservice.INVALID)
+    sid = None
+    if has_step:
+        sid = PacketFieldEnum.with_byte_size(1, 1)
+    notice = None
+    if has_notice:
+        notice = FailureNotice(PacketFieldEnum.with_byte_size(1, 2), bytes())
+    p = VerificationParams(RequestId.empty(), sid, notice)
+    o = outcome(Service1Tm, 0, sub, ts, p)
+    failure = either(sub == 2, sub == 4, sub == 6, sub == 8)
+    step_report = either(sub == 5, sub == 6)
+    ensures("refused-iff", o.raised(InvalidVerifParams) == either(has_notice != failure, has_step != step_report))
+    ensures("raises-only", o.ok or o.raised(InvalidVerifParams))
+
+
+# ------------------------------------------------------------------------------------------------ create_*_tm helpers
+
+def helper_contract(tm, tc, sub, apid, ts, ws, step, we, code, fdata, direct):
+    rid4 = tc.pack()[0:4]
+    src = srv1_source_data(rid4, sub, ws, step, we, code, fdata)
+    ensures("layout", tm.pack() == pus_tm_octets(0, apid, 0, 1, sub, 0, 0, 0, ts, src))
+    ensures("carries-request-id", both(tm.tc_req_id.pack() == rid4, tm.source_data[0:4] == rid4,
+                                       tm.tc_req_id == RequestId.from_pus_tc(tc), tm.tc_req_id.as_u32() == from_be(rid4)))
+    ensures("subservice", both(tm.service == 1, tm.subservice == sub))
+    ensures("as-direct", both(tm == direct, tm.pack() == direct.pack()))
+
+
+def some_tc(service, subservice, tc_apid, count, app):
+    return PusTc(service, subservice, tc_apid, app, count)
+
+
+@obligation(["C15"], "create_*_success_tm", verifies=[M1 + "create_acceptance_success_tm", M1 + "create_start_success_tm",
+                                                      M1 + "create_completion_success_tm"])
+def helpers_success(service: IntRange(0, 255), subservice: IntRange(0, 255), tc_apid: IntRange(0, 2047), count: IntRange(0, 16383),
+                    app: BytesLen(0, 64), apid: IntRange(0, 2047), ts: BytesLen(0, MAX_VAR - 4)):
+    tc = some_tc(service, subservice, tc_apid, count, app)
+    rid = RequestId.from_pus_tc(tc)
+    helper_contract(create_acceptance_success_tm(apid, tc, ts), tc, 1, apid, ts, 1, 0, 1, 0, bytes(),
+                    Service1Tm(apid, Subservice.TM_ACCEPTANCE_SUCCESS, ts, VerificationParams(rid)))
+    helper_contract(create_start_success_tm(apid, tc, ts), tc, 3, apid, ts, 1, 0, 1, 0, bytes(),
+                    Service1Tm(apid, Subservice.TM_START_SUCCESS, ts, VerificationParams(rid)))
+    helper_contract(create_completion_success_tm(apid, tc, ts), tc, 7, apid, ts, 1, 0, 1, 0, bytes(),
+                    Service1Tm(apid, Subservice.TM_COMPLETION_SUCCESS, ts, VerificationParams(rid)))
+
+
+@obligation(["C15"], "create_step_success_tm", verifies=[M1 + "create_step_success_tm"])
+def helpers_step_success(service: IntRange(0, 255), subservice: IntRange(0, 255), tc_apid: IntRange(0, 2047), count: IntRange(0, 16383),
+                         app: BytesLen(0, 64), apid: IntRange(0, 2047), ts: BytesLen(0, MAX_VAR - 12), ws: W, step: IntRange(0, None)):
+    requires(step < 256 ** ws)
+    tc = some_tc(service, subservice, tc_apid, count, app)
+    rid = RequestId.from_pus_tc(tc)
+    sid = PacketFieldEnum.with_byte_size(ws, step)
+    helper_contract(create_step_success_tm(apid, tc, sid, ts), tc, 5, apid, ts, ws, step, 1, 0, bytes(),
+                    Service1Tm(apid, Subservice.TM_STEP_SUCCESS, ts, VerificationParams(rid, sid)))
+
+
+@obligation(["C15"], "create_*_failure_tm", verifies=[M1 + "create_acceptance_failure_tm", M1 + "create_start_failure_tm",
+                                                      M1 + "create_completion_failure_tm"], branch_probe_ms=250)
+def helpers_failure(service: IntRange(0, 255), subservice: IntRange(0, 255), tc_apid: IntRange(0, 2047), count: IntRange(0, 16383),
+                    app: BytesLen(0, 64), apid: IntRange(0, 2047), ts: Bytes, we: W, code: IntRange(0, None), fdata: Bytes):
+    requires(code < 256 ** we)
+    requires(len(ts) + 4 + we + len(fdata) <= MAX_VAR)
+    tc = some_tc(service, subservice, tc_apid, count, app)
+    rid = RequestId.from_pus_tc(tc)
+    notice = FailureNotice(PacketFieldEnum.with_byte_size(we, code), fdata)
+    helper_contract(create_acceptance_failure_tm(apid, tc, notice, ts), tc, 2, apid, ts, 1, 0, we, code, fdata,
+                    Service1Tm(apid, Subservice.TM_ACCEPTANCE_FAILURE, ts, VerificationParams(rid, None, notice)))
+    helper_contract(create_start_failure_tm(apid, tc, notice, ts), tc, 4, apid, ts, 1, 0, we, code, fdata,
+                    Service1Tm(apid, Subservice.TM_START_FAILURE, ts, VerificationParams(rid, None, notice)))
+    helper_contract(create_completion_failure_tm(apid, tc, notice, ts), tc, 8, apid, ts, 1, 0, we, code, fdata,
+                    Service1Tm(apid, Subservice.TM_COMPLETION_FAILURE, ts, VerificationParams(rid, None, notice)))
+
+
+@obligation(["C15"], "create_step_failure_tm", verifies=[M1 + "create_step_failure_tm"], branch_probe_ms=250)
+def helpers_step_failure(service: IntRange(0, 255), subservice: IntRange(0, 255), tc_apid: IntRange(0, 2047), count: IntRange(0, 16383),
+                         app: BytesLen(0, 64), apid: IntRange(0, 2047), ts: Bytes, ws: W, step: IntRange(0, None), we: W,
+                         code: IntRange(0, None), fdata: Bytes):
+    requires(both(step < 256 ** ws, code < 256 ** we))
+    requires(len(ts) + 4 + ws + we + len(fdata) <= MAX_VAR)
+    tc = some_tc(service, subservice, tc_apid, count, app)
+    rid = RequestId.from_pus_tc(tc)
+    sid = PacketFieldEnum.with_byte_size(ws, step)
+    notice = FailureNotice(PacketFieldEnum.with_byte_size(we, code), fdata)
+    helper_contract(create_step_failure_tm(apid, tc, sid, notice, ts), tc, 6, apid, ts, ws, step, we, code, fdata,
+                    Service1Tm(apid, Subservice.TM_STEP_FAILURE, ts, VerificationParams(rid, sid, notice)))
+
+
+# ------------------------------------------------------------------------------------------------ decoding arbitrary input
+
+def decoded_report_contract(g, sub, src, ws, we):
+    """what an accepted service-1 report must say about its source data `src` (subservice `sub`)"""
+    ensures("subservice-1-to-8", both(1 <= sub, sub <= 8))
+    is_step = either(sub == 5, sub == 6)
+    is_failure = either(sub == 2, sub == 4, sub == 6, sub == 8)
+    ensures("req-id", both(g.tc_req_id.pack() == src[0:4], len(src) >= 4))
+    ensures("kind", both(g.is_step_reply == is_step, g.has_failure_notice == is_failure, g.subservice == sub))
+    c = 4
+    if sub == 5 or sub == 6:
+        ensures("step-id", both(len(src) >= 4 + ws, g.step_id.val == from_be(src[4:4 + ws]), g.step_id.pfc == 8 * ws))
+        c = 4 + ws
+    else:
+        ensures("no-step-id", g.step_id is None)
+    if sub % 2 == 0:
+        ensures("failure", both(len(src) >= c + we, g.error_code.val == from_be(src[c:c + we]), g.error_code.pfc == 8 * we,
+                                is_same(g.error_code, g.failure_notice.code), g.failure_notice.data == src[c + we:len(src)]))
+    else:
+        ensures("no-failure", both(g.error_code is None, g.failure_notice is None))
+
+
+def make_unpack_any(ws, we):
+    def s1_unpack_any(data: Bytes, tlen: IntRange(0, None)):
+        up = UnpackParams(tlen, ws, we)
+        up0 = snapshot(up)
+        o = outcome(Service1Tm.unpack, data, up)
+        ensures("raises-only", o.ok or o.raised(ValueError, InvalidTmCrc16))
+        p = outcome(PusTm.unpack, data, tlen)
+        ensures("tm-layer", both(implies(o.ok, p.ok), implies(not p.ok, exc_kind(o) == exc_kind(p))))
+        ensures("unpack-params-unchanged", same_state(up, up0))
+        if o.ok and p.ok:
+            g = o.value
+            n = data[4] * 256 + data[5] + 7
+            src = data[13 + tlen:n - 2]
+            ensures("prefix-only", same_state(g, Service1Tm.unpack(data[0:n], up)))  # (before pack() refreshes the cached CRC)
+            ensures("wraps-decoded-tm", same_state(g.pus_tm, p.value))  # PusTm.unpack's own post-conditions: C03
+            ensures("declared-length", both(n >= 15 + tlen, len(data) >= n, crc16(data[0:n]) == 0, bits(data[6], 7, 4) == 2))
+            ensures("tm", both(g.source_data == src, g.timestamp == data[13:13 + tlen], g.service == data[7], g.pus_tm.packet_len == n))
+            decoded_report_contract(g, data[8], src, ws, we)
+            ensures("pack-is-tm-pack", g.pack() == p.value.pack())
+            ensures("repack", g.pack() == data[0:n])
+    return s1_unpack_any
+
+
+for _ws in (1, 2, 4, 8):
+    for _we in (1, 2, 4, 8):
+        obligation(["C15", "C09", "C10"], "Service1Tm.unpack/any-input/step" + str(_ws) + "/code" + str(_we),
+                   verifies=S1_FUNCS, branch_probe_ms=250)(make_unpack_any(_ws, _we))
+
+
+@obligation(["C15", "C10"], "Service1Tm.from_tm/any-tm", verifies=S1_FUNCS)
+def s1_from_tm_any(service: IntRange(0, 255), sub: IntRange(0, 255), ts: BytesLen(0, 16), src: BytesLen(0, 64), ws: W, we: W):
+    tm = PusTm(service, sub, ts, src)
+    o = outcome(Service1Tm.from_tm, tm, UnpackParams(len(ts), ws, we))
+    ensures("raises-only", o.ok or o.raised(ValueError))
+    ensures("short-refused", implies(len(src) < 4, o.raised(TmSrcDataTooShortError)))
+    if o.ok:
+        ensures("wraps-tm", is_same(o.value.pus_tm, tm))
+        decoded_report_contract(o.value, sub, src, ws, we)
+
+
+def bad_widths_contract(data, tlen, ws, we):
+    o = outcome(Service1Tm.unpack, data, UnpackParams(tlen, ws, we))
+    ensures("raises-only", o.ok or o.raised(ValueError, InvalidTmCrc16))
+    if o.ok:  # only reports that carry no field of the invalid width can be accepted
+        sub = data[8]
+        ensures("bad-step-width-unused", implies(ws != 1, both(sub != 5, sub != 6)))
+        ensures("bad-code-width-unused", implies(we != 1, either(sub == 1, sub == 3, sub == 5, sub == 7)))
+
+
+@obligation(["C15", "C10"], "Service1Tm.unpack/invalid-step-width", verifies=S1_FUNCS, branch_probe_ms=250)
+def s1_unpack_bad_step_width(data: Bytes, tlen: IntRange(0, None), ws: Choice(-1, 0, 3, 5, 16)):
+    """widths that are not 1, 2, 4 or 8 octets never let an undocumented exception escape"""
+    bad_widths_contract(data, tlen, ws, 1)
+
+
+@obligation(["C15", "C10"], "Service1Tm.unpack/invalid-code-width", verifies=S1_FUNCS, branch_probe_ms=250)
+def s1_unpack_bad_code_width(data: Bytes, tlen: IntRange(0, None), we: Choice(-1, 0, 3, 6, 9)):
+    bad_widths_contract(data, tlen, 1, we)
